@@ -63,20 +63,31 @@ def varith (f : Int → Int → Int) : V → V → V
   | .int a, .int b => .int (f a b)
   | _, _ => .bad
 
+/-- `&&`: the right operand is not looked at when the left one is false (short circuit) -/
+def vand : V → V → V
+  | .bool false, _ => .bool false
+  | .bool true, .bool x => .bool x
+  | _, _ => .bad
+
+/-- `||` -/
+def vor : V → V → V
+  | .bool true, _ => .bool true
+  | .bool false, .bool x => .bool x
+  | _, _ => .bad
+
+@[simp] theorem vand_bool (a b : Bool) : vand (.bool a) (.bool b) = .bool (a && b) := by cases a <;> rfl
+@[simp] theorem vor_bool (a b : Bool) : vor (.bool a) (.bool b) = .bool (a || b) := by cases a <;> rfl
+@[simp] theorem vand_false (v : V) : vand (.bool false) v = .bool false := rfl
+@[simp] theorem vor_true (v : V) : vor (.bool true) v = .bool true := rfl
+
 def ev (env : Env) : E → V
   | .atom n => env n
   | .int n => .int n
   | .bool b => .bool b
   | .nil => .nil
   | .not a => vnot (ev env a)
-  | .and a b => match ev env a with
-      | .bool false => .bool false
-      | .bool true => (match ev env b with | .bool x => .bool x | _ => .bad)
-      | _ => .bad
-  | .or a b => match ev env a with
-      | .bool true => .bool true
-      | .bool false => (match ev env b with | .bool x => .bool x | _ => .bad)
-      | _ => .bad
+  | .and a b => vand (ev env a) (ev env b)
+  | .or a b => vor (ev env a) (ev env b)
   | .eq a b => veq (ev env a) (ev env b)
   | .ne a b => vnot (veq (ev env a) (ev env b))
   | .lt a b => vcmp (fun x y => decide (x < y)) (ev env a) (ev env b)
